@@ -64,16 +64,19 @@ DESCR = {
               'warm start (or start tasks) + an inter-cycle offset spanning more than one step of the recurrence'),
     'S-C48': ('clean.py clean(): runN tidy-up no longer guarded by "run dir no longer exists"',
               'targeted clean (--rm DIR) of the run that runN points at'),
+    'S-C44': ('workflow_db_mgr.py on_workflow_start: chmod of the private DB only on a cold start',
+              'private DB replaced while the scheduler is down by a copy with umask-default permissions, then a restart'),
     'S-C31': ('cycling/integer.py get_nearest_prev_point reduced to get_prev_point',
               'sequential task on a finite recurrence followed after a gap by another recurrence'),
 }
 NOTES = {
+    'S-C44': 'first missed: no file was ever replaced between the incarnations; a restore-from-copy variant was added',
+    'S-C32': 'first caught only by C27; C32 got a command mode (trigger of a clock-expire task into a full queue, reload)',
     'S-C48': 'first missed: the install/clean histories had no targeted clean; operation and two rules added',
     'S-C10': 'first caught only by C09 (illegal transition); C10 got an independent rule (a received message for an earlier stage must not move the status back)',
     'S-C11': 'caught by C29 (the set command is what makes the task complete); the C11 workload has no operator commands',
     'S-C25': 'first missed: C25 generated no absolute triggers; enabled',
     'S-C29': 'first missed: C29 only set outputs in a paused workflow (no live jobs); a live mode was added',
-    'S-C32': 'caught by C27 (state carried across a reload), not by C32, whose workload has no reload',
     'S-C33': 'first missed: the model took "still needed" from the task list cylc passes to housekeep() (the very list the change makes stale); it now reads the pool',
     'S-C45': 'first missed: absolute triggers were only generated on :succeeded and all dependents were spawned before the stop; custom outputs and long, tightly runahead-limited stop/restart runs added',
     'S-C26': 'caught by C26 (56 violations in 800 runs) on the commit it was seeded on (b1144d7) after the C26 workload gained operator commands; on the current tree the repair 2e8800f makes `stop --flow` publish a data-store delta, which triggers the table rewrite by itself, so the seeded change no longer breaks the property (equivalent mutant on HEAD)',
